@@ -85,14 +85,14 @@ theorem wpc_shift {Q : Unit → ParseSt → Prop} (hs : laClean s) (hQ : ∀ s',
 theorem wpc_expandOne (cx : PCtx) (action : Bool) (str : Bytes) {Q : Bytes → ParseSt → Prop} (hs : laClean s)
     (hQ : ∀ v s', laClean s' → Q v s') : wp (expandOne cx action str) Q AnyErr True s := by
   unfold wp expandOne
-  cases expandStr cx.home action s.macros str with
+  cases expandStr cx.pathMax cx.home action s.macros str with
   | none => trivial
   | some r => exact hQ r.1 _ hs
 
 theorem wpc_expandAll (cx : PCtx) (action : Bool) (strs : List Bytes) {Q : List Bytes → ParseSt → Prop} (hs : laClean s)
     (hQ : ∀ v s', laClean s' → Q v s') : wp (expandAll cx action strs) Q AnyErr True s := by
   unfold wp expandAll
-  cases expandStrs cx.home action s.macros strs with
+  cases expandStrs cx.pathMax cx.home action s.macros strs with
   | none => trivial
   | some r => exact hQ r.1 _ hs
 
